@@ -9,6 +9,7 @@ the recorded list through the same `World.step`.
 """
 import json
 import math
+import os
 import warnings
 
 import numpy as np
@@ -21,6 +22,7 @@ from sim.simfs import SimFS
 
 ENGINE = 'history'
 PROBE_WLS = [0.55, 0.4861327, 0.6562725]
+SKIP_GUARD = os.environ.get('VERIF_SKIP_GUARD') == '1'
 EPS = 1e-9
 
 
@@ -188,6 +190,11 @@ class World:
             return None
 
     # ---- one step
+    def _model_print(self):
+        m = self.model
+        return repr((m.expected(), m.pickups, m.solves, m.fields,
+                     m.field_type, m.wls, m.synced))
+
     def step(self, op):
         kind = op['op']
         self.opname = kind
@@ -195,9 +202,14 @@ class World:
         h = getattr(self, 'op_' + kind, None)
         if h is None:
             raise ValueError(f'unknown op {kind}')
+        guard = self._model_print() if SKIP_GUARD else None
         try:
             h(op)
         except NotApplicable:
+            if guard is not None and guard != self._model_print():
+                # self-test (VERIF_SKIP_GUARD=1): a skipped operation is not
+                # recorded, so it must not have changed the model
+                raise RuntimeError(f'skipped {kind} changed the model')
             self.stats['skipped'][kind] = \
                 self.stats['skipped'].get(kind, 0) + 1
             return False
@@ -1518,6 +1530,10 @@ def gen_edit(ch, w, sw):
               'radius': lensgen._radius(ch), 'thickness':
               ch.rounded(ch.uniform(0.5, 5)), 'material':
               ch.pick([['air'], ['ideal', 1.6, 0]]), 'stop': ch.chance(0.4)}
+        if ch.chance(0.35):
+            # handed over as a ready-made Surface object
+            # (add_surface(new_surface=...)) in the lens's own frame
+            op['via_object'] = {'gap': 0.0}
         return op
     if kind == 'remove':
         if n < 4:
